@@ -2,6 +2,8 @@ import Revm.Proofs.EvmLinkFeeVal
 import Revm.Proofs.EvmSpec
 import Revm.Proofs.EvmLinkLoop2
 import Revm.Proofs.EvmLinkPay
+import Revm.Proofs.EvmLinkHost
+import Revm.Props.C34
 /-! C01Link — the whole-transaction model `Revm.Model.Evm.transact` (C01) SATISFIES the component properties.
 
 `Evm.transact` (EvmTx / EvmFrame / EvmLoop / EvmHost) was written independently of the component models that carry the
@@ -432,5 +434,80 @@ theorem evm_max_depth_create (cfg : Cfg) (stack : List JFrame) (w w' : World) (i
   · cases fr with
     | result r => exact ⟨r, rfl, ((x r rfl).2).2 (by omega)⟩
     | frame f => exact absurd (show w.js.depth > CALL_STACK_LIMIT by omega) (y f rfl).2
+
+/-! ## 4. the `Host` as a journal history; cold / warm (C34)
+
+C06, C08, C10 and C34 are stated on histories of journal operations (`Spec.JournalAbs.run`). The `Host` of the
+whole-EVM model is linked to them operation by operation. -/
+
+open Revm.Spec.JournalAbs Revm.Spec.AccessHistory in
+/-- LINK: **every answer of `Evm.answer` (the model of `impl Host for Context`) is a journal history**: the journal
+after the answer is `JournalAbs.run` of `hostOps` (at most one operation) on the journal before it, over the same
+database; and for the operations that report `is_cold`, the bits handed to the interpreter (`respBits`) are `coldBits`
+of the operation — the bits C34 `is_cold_iff` is about -/
+theorem evm_host_is_journal_history (he : HostEnv) (w w1 : World) (op : Interp.HostOp) (resp : Interp.HostResp)
+    (h : answer he w op = .ok (resp, w1)) (cps : List Journal.Checkpoint) :
+    run w.db { js := w.js, cps := cps } (hostOps w op) = some { js := w1.js, cps := cps } ∧ w1.db = w.db ∧
+    (∀ o, o ∈ hostOps w op → exposes o = true → coldBits w.db w.js o = some (respBits op resp)) :=
+  answer_trace h cps
+
+open Revm.Spec.JournalAbs Revm.Spec.AccessHistory Revm.Model.Journal in
+/-- COROLLARY (C34 `is_cold_iff` on EvmHost): when the world's journal is the journal of an admissible well-nested
+history `ops` from the start of the transaction (`lockRun`), and the operation behind a `Host` question is admissible
+there (`lockStep`), the `is_cold` bits the interpreter receives are exactly those of the access-set machine of
+EIP-2929 / 2930 / 3651 / 7702 — cold ⇔ not in the accessed set -/
+theorem evm_host_cold_bits_are_access_sets (hasStorage : Addr → Bool) (spec : Nat) (pre : Addr → Bool)
+    (he : HostEnv) (w w1 : World) (op : Interp.HostOp) (resp : Interp.HostResp)
+    (hdb : DbOk w.db hasStorage) (hwf : WF w.db (JState.new spec pre))
+    (ops : List Op) (l l' : Lock) (o : Op)
+    (hrun : lockRun w.db hasStorage (Lock.init spec pre) ops = some l) (hw : l.r.js = w.js)
+    (h : answer he w op = .ok (resp, w1)) (ho : o ∈ hostOps w op) (hx : exposes o = true)
+    (hstep : lockStep w.db hasStorage l o = some l') :
+    ∃ r' st', step w.db l.r o = some r' ∧ specStep w.db l.r r' l.st o = some (st', respBits op resp) := by
+  obtain ⟨r', st', bits, h1, h2, h3⟩ := Props.C34.is_cold_iff w.db hasStorage spec pre hdb hwf ops l l' o hrun hstep hx
+  have h4 := (answer_trace h []).2.2 o ho hx
+  rw [hw, h4] at h3
+  cases h3
+  exact ⟨r', st', h1, h2⟩
+
+open Revm.Spec.JournalAbs Revm.Spec.AccessHistory Revm.Model.Journal in
+/-- COROLLARY (C34 `load_account_cold_iff` on BALANCE / SELFBALANCE): the `is_cold` of the answer is true exactly when
+the address is not in the accessed-address set of the specification -/
+theorem evm_balance_cold_iff (hasStorage : Addr → Bool) (spec : Nat) (pre : Addr → Bool)
+    (he : HostEnv) (w w1 : World) (a : Nat) (resp : Interp.HostResp)
+    (hdb : DbOk w.db hasStorage) (hwf : WF w.db (JState.new spec pre))
+    (ops : List Op) (l : Lock)
+    (hrun : lockRun w.db hasStorage (Lock.init spec pre) ops = some l) (hw : l.r.js = w.js)
+    (h : answer he w (.balance a) = .ok (resp, w1)) :
+    (resp.isCold = true ↔ l.st.cur.addrs a = false) := by
+  have h4 := (answer_trace h []).2.2 (.load a) (by simp [hostOps]) rfl
+  simp only [coldBits, respBits, Option.map_eq_some_iff] at h4
+  obtain ⟨⟨js', c⟩, h5, h6⟩ := h4
+  simp only [List.cons.injEq, and_true] at h6
+  rw [← h6]
+  rw [← hw] at h5
+  exact Props.C34.load_account_cold_iff w.db hasStorage spec pre hdb hwf ops l a js' c hrun h5
+
+open Revm.Spec.JournalAbs Revm.Spec.AccessHistory Revm.Model.Journal in
+/-- COROLLARY (C34 `sload_cold_iff` on SLOAD): cold ⇔ the slot is not in the accessed-storage-key set -/
+theorem evm_sload_cold_iff (hasStorage : Addr → Bool) (spec : Nat) (pre : Addr → Bool)
+    (he : HostEnv) (w w1 : World) (a k : Nat) (resp : Interp.HostResp)
+    (hdb : DbOk w.db hasStorage) (hwf : WF w.db (JState.new spec pre))
+    (ops : List Op) (l : Lock)
+    (hrun : lockRun w.db hasStorage (Lock.init spec pre) ops = some l) (hw : l.r.js = w.js)
+    (h : answer he w (.sload a k) = .ok (resp, w1)) :
+    (resp.isCold = true ↔ l.st.cur.slots a k = false) := by
+  have h4 := (answer_trace h []).2.2 (.sload a k) (by simp [hostOps]) rfl
+  simp only [coldBits, respBits, Option.map_eq_some_iff] at h4
+  obtain ⟨⟨js', v, c⟩, h5, h6⟩ := h4
+  simp only [List.cons.injEq, and_true] at h6
+  rw [← h6]
+  rw [← hw] at h5
+  exact Props.C34.sload_cold_iff w.db hasStorage spec pre hdb hwf ops l a k v js' c hrun h5
+
+/-- the hypotheses are satisfiable: the empty history at the start of a transaction on the sample world -/
+example : Spec.AccessHistory.lockRun sampleWorld.db (fun _ => false) (Spec.AccessHistory.Lock.init 17 (fun _ => false)) []
+    = some (Spec.AccessHistory.Lock.init 17 (fun _ => false)) ∧
+    (Spec.AccessHistory.Lock.init 17 (fun _ => false)).r.js = sampleWorld.js := ⟨rfl, rfl⟩
 
 end Revm.Props.C01Link
